@@ -12,3 +12,8 @@ inline void install_tbb_thread_exit() {
     cosched::thread_exit_hook = [] { tbb::detail::r1::governor::terminate_external_thread(); };
 }
 }
+// installed for every harness that uses the scheduler: without it the per-thread clean-up of TBB (unregistering from the cancellation list under a sleeping
+// mutex, releasing the arena slot ...) would run in the pthread key destructor of the exiting real thread, i.e. outside scheduler control and concurrently
+// with the logical threads that are still running
+namespace { struct InstallTbbThreadExit { InstallTbbThreadExit() { vh::install_tbb_thread_exit(); } } g_install_tbb_thread_exit; }
+
